@@ -147,6 +147,55 @@ def run(ctx):
                  sample={k: cfg.get(k) for k in ("joint", "readonly", "fortran", "matrix_lambda", "vector_beta", "eps", "fail")}
                  if len(ctx.samples) < 5 else None)
 
+    # ---------------- call SEQUENCES on the same data: the arrays handed to an EARLIER call (a per-pair switching-cost
+    # vector, a penalty matrix, the data) still belong to the caller during every LATER call - with another switching
+    # cost of the same length, a scalar one, another penalty.  A library that keeps a reference to an argument and
+    # refreshes it later modifies caller-owned data just the same.
+    if ctx.replay is None or ctx.replay.get("sequence"):
+        for rep in range(4 if ctx.quick() else 40):
+            cfg = tu.gen_config(ctx.rng, joint=(rep % 4 == 3))
+            cfg.update({"limit": 2, "sequence": True, "readonly": rep % 2 == 1})
+            for k_ in ("dtype", "completion", "flat"):
+                cfg.pop(k_, None)
+            if ctx.replay is not None:
+                cfg = ctx.replay
+            base = tu.config_data(cfg)
+            npts = sum(s_.shape[0] - cfg["W"] + 1 for s_ in base)
+            n = cfg["N"] * cfg["W"]
+            rs = np.random.RandomState(cfg["seed"] % 2 ** 31)
+            betas = [prep(np.full(npts, 30.0), cfg["readonly"], False), 10.0,
+                     prep(np.round(rs.uniform(1, 20, size=npts) * 4) / 4, cfg["readonly"], False), 3,
+                     prep(np.full(npts, 7.5), False, False)]
+            lams = [0.11, prep(np.full((n, n), 0.25), cfg["readonly"], False), 0.05, prep(np.full((n, n), 0.5), False, False), 0.11]
+            ledger = []
+            for step, (beta_, lam_) in enumerate(zip(betas, lams)):
+                series = [prep(s_.copy(), cfg["readonly"], False) for s_ in base]
+                kw = dict(tu.config_kwargs(cfg), label_switching_cost=beta_, sparsity_weight=lam_)
+                data_arg = series if cfg["joint"] else series[0]
+                for nm, obj in (("data", data_arg), ("label_switching_cost", beta_), ("sparsity_weight", lam_)):
+                    if isinstance(obj, (np.ndarray, list)):
+                        ledger.append((step, nm, obj, snap(obj)))
+                err = None
+                try:
+                    tu.seed_all(cfg["seed"])
+                    with tu.inline_pool(), tu.quiet(), warnings.catch_warnings():
+                        warnings.simplefilter("ignore")
+                        (fast_ticc.ticc_joint_labels if cfg["joint"] else fast_ticc.ticc_labels)(data_arg, **kw)
+                except Exception as e:
+                    err = e
+                for (st0, nm, obj, sn) in ledger:
+                    if snap(obj) != sn:
+                        ctx.violation("impl-violation",
+                                      f"call {step} of a sequence modified the {nm} array handed to call {st0}"
+                                      f"{' (call raised ' + type(err).__name__ + ')' if err else ''}", dict(cfg, step=step),
+                                      {"site": "front-end-args"})
+                        break
+                if cfg["readonly"] and err is not None and "read-only" in str(err):
+                    ctx.violation("impl-violation", f"call {step} of a sequence rejected read-only input: {err}", dict(cfg, step=step),
+                                  {"site": "readonly"})
+                ctx.count("sequence_calls")
+            ctx.case(("sequence", rep, cfg["joint"], cfg["readonly"]), nontrivial=True)
+
     # ---------------- optimiser entry point and labelling step, called directly
     if ctx.replay is None:
         for i in range(40 if ctx.quick() else 400):
